@@ -40,13 +40,21 @@ compute_summary, which hands it what `_as_bipartite` returns), `_is_weakly_rever
 `_linkage_class_stoich_rank` on every linkage class handed over as any kind of iterable, on the empty class and on a
 fresh analyzer; input graphs also written by `hypergraph_to_bipartite` with non-default options, and graphs carrying
 nodes / arcs that are not part of the species-reaction network; analyzer option `rank_fn=None`.
+
+Graph inputs and the Lean model of the graph reading (every bipartite session query and every `direct` case): the LIVE NetworkX
+object is serialised node by node and edge by edge at the moment it is analysed (`c17.bip_request`), the driver command
+`bip.complexes` (`SynKitModel/BipGraph.lean`, `BipGraphViews.lean`) reads the network off it (`netOfGraph`, ordered as the analysis
+orders it: `view`), that network must be the described one (harness self-test, `Infra` otherwise) and the EXPECTED complexes /
+classes / summary are `def.analyse` of it; theorems `graphComplexes_eq`, `graphComplexesRaw_eq`, `graphSummary_eq` tie the graph-level
+model of `_complex_vectors` (on `_as_bipartite(G)` and on the graph as given) to that network-level model, and the driver's own
+evaluation of their conclusion on every input is checked (`agrees`).
 """
 import hashlib
 import itertools
 import json
 from fractions import Fraction
 
-from ..core import ROOT
+from ..core import ROOT, Infra
 from ..leanscope import build_and_audit_scoped
 from ..shrink import shrink_seq
 from .. import netio
@@ -70,6 +78,13 @@ THEOREMS = [
     "SynKit.Deficiency.deficiency_nonneg",
     "SynKit.Deficiency.linkage_deficiency_sum_le",
     "SynKit.Deficiency.full",
+    "SynKit.BipGraph.graphComplexes_eq",
+    "SynKit.BipGraph.graphComplexesRaw_eq",
+    "SynKit.BipGraph.graphSummary_eq",
+    "SynKit.BipGraph.graphComplexes_spec",
+    "SynKit.BipGraph.graphComplexes_orientation_invariant",
+    "SynKit.BipGraph.graphComplexes_undirected_eq_directed",
+    "SynKit.BipGraph.graphComplexes_missing_stoich",
 ]
 
 
@@ -719,6 +734,8 @@ def exec_session(sess):
     {"step", "an", "m", "opt", "kind", "desc", "net", "impl", "linkage", "enc", "reused", "same_shape"}."""
     import copy
 
+    from .c17 import bip_request
+
     nets = {"n0": _Net(sess["kind"], sess.get("flavor"))}
     for r in sess["init"]["reactions"]:
         nets["n0"].edit({"op": "add", "rxn": r})
@@ -785,7 +802,8 @@ def exec_session(sess):
                 if a["sum_ver"] != net.ver:
                     continue
                 obs_impl, linkage = observe(an), a["link_ver"] == net.ver
-            out.append({"doubled": net.undirected and undouble(obs_impl, net.desc)[1], "step": k, "an": op["an"], "m": m, "opt": a["opt"], "kind": net.kind, "desc": copy.deepcopy(net.desc),
+            out.append({"bip": bip_request(net.obj) if net.kind == "bip" else None,
+                        "doubled": net.undirected and undouble(obs_impl, net.desc)[1], "step": k, "an": op["an"], "m": m, "opt": a["opt"], "kind": net.kind, "desc": copy.deepcopy(net.desc),
                         "net": net.net_json(), "impl": obs_impl, "linkage": linkage, "enc": net.check_encoding(),
                         "reused": reused and computes, "same_shape": reused and computes and a["shape"] == shape})
             if err is None and computes:
@@ -818,6 +836,65 @@ def lean_models(ctx, nets):
         out[k] = {"error": m["error"]} if "error" in m else {
             "complexes": [tuple(c) for c in m["complexes"]], "arcs": m["arcs"], "classes": m["classes"],
             "summary": m["summary"], "linkage_deficiencies": m["linkage_deficiencies"]}
+    return out
+
+
+def _sides(r):
+    return [sorted([str(a), int(b)] for a, b in r["r"]), sorted([str(a), int(b)] for a, b in r["p"])]
+
+
+def view_matches(view, net, ordered):
+    """Harness self-test: the network the Lean model reads off the graph (`viewNet (netOfGraph g)`: species sorted by label, one
+    reaction per reaction node in `G.nodes` order) is the network the description stands for: same species list, same (consumed,
+    produced) sides - reaction by reaction when the description fixes the node order, else as a multiset.  Rule labels and ids are
+    not part of C19 and not compared."""
+    got, want = [_sides(r) for r in view["reactions"]], [_sides(r) for r in net["reactions"]]
+    return list(view["species"]) == list(net["species"]) and (got == want if ordered else sorted(got) == sorted(want))
+
+
+def lean_graph_models(ctx, entries, tag):
+    """entries: [(bip_request(G), described network JSON, ordered)] -> per entry None (graph not serialisable) or the `def.analyse`
+    model (exact ranks) of the network the Lean model of the graph reading reads off G; None instead of the list after a harness
+    alarm of lean_models.  Raises Infra when that network is not the described one, or when the driver's own evaluation
+    contradicts graphComplexes_eq / graphComplexesRaw_eq / graphSummary_eq."""
+    out = [None] * len(entries)
+    uniq = {}
+    for i, (bip, net, ordered) in enumerate(entries):
+        if "cmd" not in bip:
+            ctx.count("bip:graph not serialisable: " + str(bip.get("skip")))
+            continue
+        req = dict({k: v for k, v in bip.items() if k != "ids"}, cmd="bip.complexes")
+        uniq.setdefault(json.dumps(req, sort_keys=True), (req, []))[1].append(i)
+        ctx.count(f"bip:graphs serialised[{tag}]")
+        ctx.count("bip:class=" + ("Multi" if bip["multi"] else "") + ("DiGraph" if bip["directed"] else "Graph"))
+    if not uniq:
+        return out
+    keys = list(uniq)
+    reps = ctx.lean().ok([uniq[k][0] for k in keys], shards=8)
+    for k, rep in zip(keys, reps):
+        req, idxs = uniq[k]
+        if not rep["wfCore"]:
+            ctx.count("bip:graph outside the hypotheses of the theorems (WF)", len(idxs))
+        elif not rep["agrees"]:
+            raise Infra("bip.complexes contradicts graphComplexes_eq / graphComplexesRaw_eq / graphSummary_eq on " + json.dumps(req)[:900])
+        for i in idxs:
+            if not view_matches(rep["view"], entries[i][1], entries[i][2]):
+                raise Infra("netOfGraph (Lean model of the graph reading) differs from the network the case description stands for: "
+                            + json.dumps({"view": rep["view"], "described": entries[i][1], "graph": req})[:1500])
+        ctx.count("bip:netOfGraph = described network (self-test)", len(idxs))
+    models = lean_models(ctx, [rep["view"] for rep in reps])
+    if models is None:
+        return None
+    for k, rep in zip(keys, reps):
+        m = models[json.dumps(rep["view"], sort_keys=True)]
+        if ("error" in m) != ("error" in rep):
+            raise Infra("bip.complexes and def.analyse disagree about the ValueError branch on " + json.dumps(uniq[k][0])[:900])
+        if "error" not in m and rep["wfCore"] and (
+                [tuple(c) for c in rep["complexes"]] != [tuple(c) for c in m["complexes"]] or rep["arcs"] != m["arcs"]
+                or [tuple(c) for c in rep["raw_complexes"]] != [tuple(c) for c in m["complexes"]] or rep["raw_arcs"] != m["arcs"]):
+            raise Infra("def.analyse on netOfGraph differs from the graph-level _complex_vectors model of bip.complexes on " + json.dumps(uniq[k][0])[:900])
+        for i in uniq[k][1]:
+            out[i] = m
     return out
 
 
@@ -897,13 +974,26 @@ def run_sessions(ctx, sessions, tag):
     models = lean_models(ctx, [ob["net"] for _, obs in runs for ob in obs])
     if models is None:
         return
+    # bipartite sessions: the expected answer comes from the Lean model of the graph reading applied to the live graph
+    gobs = [ob for _, obs in runs for ob in obs if ob.get("bip") is not None and ob["enc"] is None]
+    gms = lean_graph_models(ctx, [(ob["bip"], ob["net"], True) for ob in gobs], tag)
+    if gms is None:
+        return
+    for ob, gm in zip(gobs, gms):
+        if gm is None:
+            continue
+        if canon(gm) != canon(models[json.dumps(ob["net"], sort_keys=True)]):
+            raise Infra("the model of netOfGraph differs from the model of the described network although the networks agree: "
+                        + json.dumps(ob["net"])[:900])
+        ob["graph_model"] = gm
+        ctx.count(f"bip:expected answer from the Lean model of the graph reading[{tag}]")
     for sess, obs in runs:
         for ob in obs:
             if ob["enc"] is not None:
                 ctx.violation("network encoder and the implementation's bipartite view disagree in a session (harness assumption, not the property)",
                               {"session": sess}, {"detail": ob["enc"], "step": ob["step"]}, no_input=True)
                 return
-            model = models[json.dumps(ob["net"], sort_keys=True)]
+            model = ob.get("graph_model") or models[json.dumps(ob["net"], sort_keys=True)]
             ci, cm = canon(ob["impl"]), canon(model)
             ctx.count(f"session-queries[{tag}]")
             ctx.count(f"session:method={ob['m']}")
@@ -1312,7 +1402,9 @@ def exec_direct(dc):
 
     G, net, odesc, enc = build_direct(dc)
     junk = bool(dc.get("junk"))
-    ob = {"net": net, "desc": odesc, "enc": enc, "junk": junk, "opt": dc.get("opt", "default"), "undirected": not G.is_directed(), "multi": G.is_multigraph()}
+    from .c17 import bip_request
+    ob = {"net": net, "desc": odesc, "enc": enc, "junk": junk, "opt": dc.get("opt", "default"), "undirected": not G.is_directed(), "multi": G.is_multigraph(),
+          "bip": bip_request(G)}
     opt = dc.get("opt", "default")
     # A: the helper on the graph as given
     try:
@@ -1493,12 +1585,25 @@ def run_direct(ctx, dcs, tag):
     models = lean_models(ctx, [ob["net"] for ob in obs])
     if models is None:
         return
+    # the expected answer comes from the Lean model of the graph reading applied to the graph handed over (foreign nodes / arcs included)
+    gobs = [(dc, ob) for dc, ob in zip(dcs, obs) if ob["enc"] is None]
+    gms = lean_graph_models(ctx, [(ob["bip"], ob["net"], dc["source"] == "net") for dc, ob in gobs], tag)
+    if gms is None:
+        return
+    for (dc, ob), gm in zip(gobs, gms):
+        if gm is None:
+            continue
+        if canon(gm) != canon(models[json.dumps(ob["net"], sort_keys=True)]):
+            raise Infra("the model of netOfGraph differs from the model of the described network although the networks agree: "
+                        + json.dumps(ob["net"])[:900])
+        ob["graph_model"] = gm
+        ctx.count(f"bip:expected answer from the Lean model of the graph reading[{tag}]")
     for dc, ob in zip(dcs, obs):
         if ob["enc"] is not None:
             ctx.violation("network description and the bipartite graph built from it disagree (harness assumption, not the property)",
                           {"direct": dc}, {"detail": ob["enc"]}, no_input=True)
             return
-        model = models[json.dumps(ob["net"], sort_keys=True)]
+        model = ob.get("graph_model") or models[json.dumps(ob["net"], sort_keys=True)]
         want = want_from_model(model)
         ctx.count(f"direct[{tag}]")
         ctx.count(f"direct:source={dc['source']}")
@@ -1645,6 +1750,10 @@ def run(ctx):
         "compute_summary ran on the current network version, per-class list when the last compute_linkage_deficiencies used that complex graph)",
         "direct stream: harness/props/c19.py read_graph (the network a bipartite graph spells, read with plain NetworkX calls, compared with the "
         "description on every case); hypergraph_to_bipartite only as a producer of input graphs (what it wrote is read back by read_graph)",
+        "graph inputs (bipartite sessions, direct stream): hand-written model SynKitModel/BipGraph.lean + BipGraphViews.lean of the graph reading "
+        "(_as_bipartite, _split_species_reactions, _species_order, _complex_vectors on _as_bipartite(G) and on the graph as given), "
+        "Driver/BipGraph.lean (bip.complexes), the serialiser c17.bip_request; the expected answer is def.analyse of the network that model reads "
+        "off the live graph, which is asserted to be the described network (self-test)",
     ]
     ctx.assumptions = [
         "the network is given as a CRNHyperGraph (distinct species labels, distinct reaction ids, positive integer coefficients) or as a "
